@@ -278,7 +278,7 @@ class Server(Acceptor):
                               cs=cs,
                               bs=self.bs,
                               wl=self.wl,
-                              timeout=self.tymeout)
+                              tymeout=self.tymeout)
             if ca in self.ixes and self.ixes[ca] is not remoter:
                 self.shutdownIx(ca)
             self.ixes[ca] = remoter
@@ -556,7 +556,7 @@ class ServerTls(Server):
                                  bs=self.bs,
                                  cs=cs,
                                  wl=self.wl,
-                                 timeout=self.tymeout,
+                                 tymeout=self.tymeout,
                                  context=self.context,
                                  version=self.version,
                                  certify=self.certify,
@@ -690,9 +690,11 @@ class Remoter(tyming.Tymee):
 
     def refresh(self):
         """
-        Restart tymer
+        Restart tymer from current tyme so tymeout measures time since last refresh
+        Only when wound to a tymist otherwise there is no tyme to measure
         """
-        self.tymer.restart()
+        if self.tymth:
+            self.tymer.start()
 
 
     def receive(self):
